@@ -387,5 +387,7 @@ func (g *gen) run() {
 	// L. settings toggled on live connections;  M. the http3 request-stream API
 	g.runLive()
 	g.runH3Stream()
+	// N. trailers
+	g.runTrailers()
 	g.flushSeq(len(g.seqCases))
 }
